@@ -65,7 +65,8 @@ func (c Control) SourceName() string {
 	if c.Source == "" {
 		return c.Package
 	}
-	return c.Source
+	/* `Source: name (version)` when the versions differ (binNMUs) */
+	return strings.SplitN(c.Source, " ", 2)[0]
 }
 
 // }}}
